@@ -162,6 +162,10 @@ main (void)
 			psf->parselog.buf [k] = nd_plog [k] ;
 		psf->parselog.buf [6] = 0 ;
 		psf->parselog.indx = 6 ;
+		/* the library-wide log a failed open leaves behind (read by SFC_GET_LOG_INFO on a NULL handle) */
+		for (k = 0 ; k < 6 ; k++)
+			sf_parselog [k] = nd_plog [5 - k] ;
+		sf_parselog [6] = 0 ;
 	}
 
 	VASSUME (nd_datasize >= 0 && nd_datasize <= DMAX) ;
